@@ -257,6 +257,7 @@ func (e *Engine) builtin(st *State, f *Frame, res ssa.Value, in ssa.Instruction,
 			return
 		}
 		o.ch.closed = true
+		e.wakeSelectors(st, c.obj)
 		if len(o.ch.buf) == 0 {
 			for _, t := range st.threads {
 				if t.waitCh == c.obj && !t.done {
@@ -530,6 +531,7 @@ func (e *Engine) chanSend(st *State, f *Frame, in ssa.Instruction, c ChanV, v Va
 	}
 	if len(o.ch.buf) < o.ch.cap {
 		o.ch.buf = append(o.ch.buf, v)
+		e.wakeSelectors(st, c.obj)
 		return
 	}
 	e.blocked(st, f, in, fmt.Sprintf("send on full channel (cap %d, len %d) with no receiver", o.ch.cap, len(o.ch.buf)))
@@ -606,6 +608,21 @@ func (e *Engine) switchThread(st *State) bool {
 		return true
 	}
 	return false
+}
+
+// wakeSelectors makes threads waiting in a select on ch runnable (they re-execute the select).
+func (e *Engine) wakeSelectors(st *State, ch int) {
+	for _, t := range st.threads {
+		if t.waitCh == -1 && !t.done {
+			for _, c := range t.waitSet {
+				if c == ch {
+					t.waitCh = 0
+					t.waitSet = nil
+					break
+				}
+			}
+		}
+	}
 }
 
 // wakeReceiver hands v to a thread blocked receiving on ch; false if there is none.
@@ -722,6 +739,19 @@ func (e *Engine) selectOp(st *State, f *Frame, x *ssa.Select) {
 	if len(rs) == 0 {
 		if !x.Blocking {
 			apply(st, -1)
+			return
+		}
+		// a goroutine other than the last runnable one may wait: suspend and re-execute the select when woken
+		if len(st.resume) > 0 || e.hasRunnable(st) {
+			var set []int
+			for _, s := range x.States {
+				if c := e.get(st, f, s.Chan).(ChanV); c.obj != 0 {
+					set = append(set, c.obj)
+				}
+			}
+			f.ip-- // retry the select on resume
+			st.threads = append(st.threads, &Thread{frames: st.frames, waitCh: -1, waitSet: set})
+			st.frames = nil
 			return
 		}
 		e.blocked(st, f, x, "select with no ready case and no default")
